@@ -9,6 +9,7 @@
    attacker is [C01_open_sound_member_partial]. *)
 From Coq Require Import List NArith Bool.
 From Wesh Require Import Model.Store Model.C02_Ratchet Model.C01_Envelope Proofs.C02_Ratchet Proofs.C01_Envelope.
+From Wesh Require Model.C14_Push Proofs.C14_Push.
 Import ListNotations.
 Open Scope N_scope.
 
@@ -81,9 +82,23 @@ Proof.
   exact (conj (rejected_leaves_no_trace s e cid own Hc Hbad) (rejected_again s e cid own n Hc Hbad)).
 Qed.
 
+(* the push path cannot be used to vouch for a log entry: whatever push payloads were opened before - genuine
+   ones relayed by a fellow member under an identifier of its choice included - an identifier under which the
+   log path stored nothing still has nothing stored under it, so the theorems above ("under a fresh CID")
+   apply to a forged entry presented under that identifier afterwards: it is rejected, and rejected again *)
+Theorem C01_push_does_not_vouch :
+  forall Nr pushes s cid2,
+    get_cid s cid2 = None ->
+    get_cid (fold_left (fun st p => snd (C14_Push.push_step Nr st (fst p) (snd p))) pushes s) cid2 = None.
+Proof.
+  intros Nr pushes. induction pushes as [|[e cid] ps IH]; intros s cid2 H; cbn [fold_left]; [exact H|].
+  apply IH. unfold get_cid in *. cbn [fst snd]. rewrite Proofs.C14_Push.push_keeps_cid_keys. exact H.
+Qed.
+
 Print Assumptions C01_rejected_leaves_no_trace.
 Print Assumptions C01_seal_produces_honest.
 Print Assumptions C01_open_fresh_requires.
 Print Assumptions C01_open_sound_outsider.
 Print Assumptions C01_open_sound_member_partial.
 Print Assumptions C01_member_forgery_refuted.
+Print Assumptions C01_push_does_not_vouch.
